@@ -162,6 +162,8 @@ structure Report where
   dualPassed : Bool
   /-- the `obj_value` argument is a number (not NaN) -/
   objValuePassed : Bool
+  /-- the codes on the `objno N <code>` lines of `<solstub>1.sol`, `<solstub>2.sol`, … -/
+  altCodes : List Int
 deriving DecidableEq, Repr
 
 /-- Hand model of `StdBackend::ReportSolution2AMPL`:
@@ -177,18 +179,22 @@ def report (a : Answer) : Report where
   primalPassed := a.hasPrimal
   dualPassed := a.hasDual
   objValuePassed := isProblemSolvedOrFeasible a.code && decide (a.nObj = 1)
+  -- ReportIntermediateSolution: HandleFeasibleSolution(SolveCode(), …) -> SolutionWriterImpl::HandleFeasibleSolution
+  -- writes `<solution_stub><n>.sol` with that status iff a solution stub is set
+  altCodes := if a.solStub then List.replicate a.nAlt a.code else []
 
 /-- The same decisions read off the *generated* guard structure of `ReportSolution2AMPL`. -/
 def reportGen (a : Answer) : Report where
   objectiveShown := objectiveWritten a
-  codeWritten := codePassed a
+  codeWritten := finalCodeWritten a
   primalPassed := a.hasPrimal
   dualPassed := a.hasDual
   objValuePassed := isProblemSolvedOrFeasible a.code && decide (a.nObj = 1)
+  altCodes := if a.solStub then List.replicate a.nAlt (altCodeWritten a) else []
 
 def b2s (b : Bool) : String := if b then "1" else "0"
 
 def Report.toStr (r : Report) : String :=
-  s!"objShown={b2s r.objectiveShown} code={r.codeWritten} primal={b2s r.primalPassed} dual={b2s r.dualPassed} objval={b2s r.objValuePassed}"
+  s!"objShown={b2s r.objectiveShown} code={r.codeWritten} primal={b2s r.primalPassed} dual={b2s r.dualPassed} objval={b2s r.objValuePassed} alt={",".intercalate (r.altCodes.map toString)}"
 
 end MpVerif.C10
